@@ -64,9 +64,41 @@ fn rand_sink(rng: &mut Rng) -> Vec<SinkStep> {
     }
 }
 
+/// systematic boundary family for C01: every string / binary payload length around the size-field boundaries,
+/// under the default and every explicit width that can hold it, at the root, inside a Start/End master and inside a Full
+fn rt_boundaries(out: &mut Out, n: &mut usize) {
+    let s = gen::s3();
+    for &len in &[0usize, 1, 126, 127, 128, 129, 16382, 16383, 16384, 16385] {
+        for (leaf_id, is_str) in [(0x87u64, true), (0x88, false), (0xec, false)] {
+            let need = { let l = len as u64; let mut w = gen::min_width(l); if l == (1u64 << (7 * w)) - 1 { w += 1; } w };
+            for width in std::iter::once(0usize).chain(need..=8) {
+                if len > 1000 && width != 0 && width != need && width != 8 { continue; }
+                let val = if is_str { Val::S("x".repeat(len)) } else { Val::B((0..len).map(|i| (i * 7 + 1) as u8).collect()) };
+                let mut leaf = Node::leaf(leaf_id, val); leaf.width = width;
+                for shape in 0..3 {
+                    if leaf_id == 0xec && shape == 0 { /* the global element may stand at the root */ } else if leaf_id != 0xec && shape == 0 { continue; }
+                    let inner = if leaf_id == 0xec { vec![leaf.clone()] } else { vec![Node::master(0x83, vec![leaf.clone()])] };
+                    let doc: Vec<Node> = match shape { 0 => vec![leaf.clone()], _ => vec![Node::master(0x81, vec![Node::master(0x82, inner)])] };
+                    let none = |_: &[usize]| false; let all = |p: &[usize]| p.len() >= 2;
+                    let mut d2 = doc.clone();
+                    if shape == 2 { for d in d2.iter_mut() { fn strip(n: &mut Node, depth: usize) { if depth >= 1 { n.width = 0; } for k in n.kids.iter_mut() { strip(k, depth + 1); } } strip(d, 0); } }
+                    let mut ops = if shape == 2 { ops_of(&d2, &all, false) } else { ops_of(&doc, &none, false) };
+                    ops.push(WOp::Flush);
+                    begin(out, n, &s, "rt", json!({"expect": expect_json(if shape == 2 { &d2 } else { &doc }), "raws": false, "boundary": len as i64}));
+                    let (dest, _) = run_writer(out, "w", &ops, vec![]);
+                    readback(out, "r", &dest, false);
+                    out.ev(json!({"ev":"end"}));
+                }
+            }
+        }
+    }
+}
+
 /// C01: write a conformant tree under a random presentation and options, read it back strictly
 pub fn rt(out: &mut Out, rng: &mut Rng, count: usize, big: bool) {
     let mut n = 0usize;
+    dynspec::install(gen::s3());
+    rt_boundaries(out, &mut n);
     for i in 0..count {
         let s = pick_schema(rng, i);
         let o = DocOpts { max_tags: 24, big: big && i % 10 == 0, ..Default::default() };
@@ -310,7 +342,7 @@ pub fn run(out: &mut Out, which: &str, seed: u64, thorough: bool) {
     let mut rng = Rng::new(seed);
     let k = if thorough { 10 } else { 1 };
     match which {
-        "rt" => rt(out, &mut rng, 400 * k, thorough),
+        "rt" => rt(out, &mut rng, 1000 * k, thorough),
         "present" => present(out, &mut rng, 150 * k),
         "calls" => calls(out, &mut rng, 400 * k),
         "fix" => fix(out, &mut rng, 500 * k),
